@@ -75,6 +75,19 @@ def run(cmd, timeout=1800, cwd=None, input=None):
     return subprocess.run(cmd, cwd=cwd, input=input, capture_output=True, text=True, timeout=timeout)
 
 
+def _np_default(o):
+    import numpy as np
+    if isinstance(o, np.bool_):
+        return bool(o)
+    if isinstance(o, np.integer):
+        return int(o)
+    if isinstance(o, np.floating):
+        return float(o)
+    if isinstance(o, np.ndarray):
+        return o.tolist()
+    raise TypeError('not JSON serializable: %r' % type(o))
+
+
 class Lean:
     """build, audit and drive the Lean side"""
 
@@ -166,7 +179,7 @@ class Lean:
         """send requests (list of dicts) to the driver, return list of answers (dicts)"""
         if not requests:
             return []
-        data = '\n'.join(json.dumps(r, separators=(',', ':')) for r in requests) + '\n'
+        data = '\n'.join(json.dumps(r, separators=(',', ':'), default=_np_default) for r in requests) + '\n'
         r = run(['lake', 'env', 'lean', '--run', 'ElfiVerif/Driver.lean'], cwd=LEAN_DIR, input=data,
                 timeout=timeout)
         lines = [l for l in r.stdout.splitlines() if l.strip()]
